@@ -5,12 +5,18 @@ EXHAUSTIVE = {"quick": False, "thorough": True}
 RULE = ("3 fixed scenarios (the F5 and F6 witnesses, a short with stale market data) + random interleavings (1-3 instruments, length <= 30/60, "
         "30/50/70 % fills, 0/20/50 % of the market events with an old exchange time) of fills (openings with and without fee, increases, "
         "reductions, exact closes, flips), public trades, two-sided L1 books and price-less market items (candle / liquidation), every op "
-        "through the real Engine::process; thorough additionally enumerates every sequence of length <= 4 over 13 symbols on one instrument "
+        "through the real Engine::process; plus a separately seeded family (N/2 cases, ids d...) over four value regimes - the original tables, "
+        "tiny prices (down to 1e-8) with quantities up to 1 234 567, large prices (up to 9 999 999.9) with quantities down to 0.0001, zero and "
+        "negative MARKET prices (public trades and L1 books at 0 / below 0; fills stay positive) - with 1-8 instruments spread over 1-3 exchanges "
+        "(`init n x`), traffic concentrated on 1-3 of them, public trades of both taker sides, L2 order-book snapshots besides candles and "
+        "liquidations as the price-less item, and L1 payload times before and after the event time (15 %); every product stays below 1e8 so that "
+        "Decimal + - x are exact; thorough additionally enumerates every sequence of length <= 4 over 13 symbols on one instrument "
         "(8 fills = side x qty{1,2} x (price,fee){(100,1),(150,0)}, 2 trades, 2 L1 books, 1 price-less item; 30 940 sequences). A case is distinct "
         "by the SHA-1 of its op lines and non-trivial when the implementation's observation (price, position, pnl_unrealised per instrument) "
         "changes at least once")
 ASSUMPTIONS = [
     "InstrumentData = DefaultInstrumentMarketData (price() = volume-weighted mid of the held L1 if it has both sides, else last trade price)",
+    "every fill has price > 0 (market prices may be zero or negative; a fill price <= 0 is `bad-op` on both sides: a position whose entry average is exactly 0 - one fill at 0, or fills at -5 and 5 - panics when it is exited, calculate_pnl_return divides by price_entry_average * quantity_abs_max, the boundary documented for C16)",
     "every fill has quantity > 0 (the code takes |quantity|; a zero-quantity opening fill makes Decimal divide by zero) and OrderBookL1 payloads carry both sides with non-negative amounts that do not sum to zero (Decimal division by zero otherwise)",
     "every event names an instrument the engine was built with (the code panics otherwise; harness and model both report `panic`)",
     "event times are after the Unix epoch (the default OrderBookL1 carries the epoch as last_update_time), trade prices are finite f64 that Decimal::from_f64 represents exactly",
